@@ -97,6 +97,7 @@ type Gen struct {
 	muteObl         int
 	keyKind         map[string]CompKind
 	atReturnUsed    map[string]int
+	pendingReach    []*Obligation // `reachable` clauses: must-be-SAT obligations, moved into FuncVC.Covers
 	atReturnSkipped map[string]int
 	usedInvs        map[string]bool
 }
